@@ -18,7 +18,7 @@ use wtransport_proto::stream::session::StreamSession;
 use wtransport_proto::stream::uniremote::{MaybeUpgradeH3, StreamUniRemoteH3, StreamUniRemoteQuic};
 use wtransport_proto::stream::IoReadError;
 
-const RULE: &str = "all sequences of length <= 4 (quick) / 5 (thorough) over the alphabet {DATA, HEADERS, SETTINGS, WT-signal(valid id), WT-signal(invalid id), GREASE, oversize, truncated-at-FIN} x four frame-reading typestates (peer bidi, local bidi, peer control, session) x three decoding paths, plus random sequences of length <= 12 with random payloads, ids and types; every read result is compared with the rule table transcribed from RFC 9114 / the WebTransport draft. Non-trivial: the sequence contains at least one element whose prescribed reaction is an error; distinct = distinct (sequence, typestate)";
+const RULE: &str = "all sequences of length <= 4 (quick) / 5 (thorough) over the alphabet {DATA, HEADERS, SETTINGS, WT-signal(valid id), WT-signal(invalid id), GREASE, unknown type, oversize, known frame truncated-at-FIN, unknown-type frame truncated-at-FIN right after its length} x four frame-reading typestates (peer bidi, local bidi, peer control, session) x three decoding paths, plus random sequences of length <= 12 with random payloads, ids and types (truncation at every point: inside the type, inside the length, right after the length, inside the payload, for known, GREASE, unknown and WT-signal headers); every read result is compared with the rule table transcribed from RFC 9114 / the WebTransport draft. Non-trivial: the sequence contains at least one element whose prescribed reaction is an error; distinct = distinct (sequence, typestate)";
 
 /// The library's four frame-reading typestates behind one interface.
 pub enum TsImpl {
@@ -88,10 +88,38 @@ pub enum Sym {
     Oversize(u8, u64),
     /// frame header declaring more payload than follows; stream finishes here
     Truncated(u8, u8, u8),
+    /// frame of a type neither the specifications nor the library know (must be skipped whole)
+    Unknown(u8, Vec<u8>),
+    /// a frame header (2-byte length, possibly multi-byte type) cut inside itself; stream finishes here
+    TruncatedHeader(u8, u8),
 }
 
 fn known_ty(sel: u8) -> u64 {
     [reg::FRAME_DATA, reg::FRAME_HEADERS, reg::FRAME_SETTINGS, refcodec::grease(2)][(sel % 4) as usize]
+}
+
+/// Frame types that are unknown to RFC 9114, RFC 9297, the WebTransport draft and the library
+/// (not reserved HTTP/2 types, not push / GOAWAY, not GREASE).
+pub fn unknown_ty(sel: u8) -> u64 {
+    let t = [0x0fu64, 0x10, 0x3f, 0x42, 0x1234, 0x4000_0000, 0x1122_3344_5566][(sel % 7) as usize];
+    debug_assert!(!refcodec::is_grease(t));
+    t
+}
+
+/// Types for truncation: known, GREASE (1- and 2-byte), unknown (1-, 2- and 8-byte), WT signal.
+fn trunc_ty(sel: u8) -> u64 {
+    match sel % 10 {
+        0 => reg::FRAME_DATA,
+        1 => reg::FRAME_HEADERS,
+        2 => reg::FRAME_SETTINGS,
+        3 => refcodec::grease(2),
+        4 => refcodec::grease(700),
+        5 => unknown_ty(0),
+        6 => unknown_ty(4),
+        7 => unknown_ty(6),
+        8 => unknown_ty(3),
+        _ => reg::FRAME_WT_STREAM,
+    }
 }
 
 impl Sym {
@@ -107,14 +135,30 @@ impl Sym {
             Sym::Truncated(sel, declared, present) => {
                 let declared = (*declared as u64).max(1);
                 let present = (*present as u64) % declared;
-                let mut v = refcodec::enc_frame_header(known_ty(*sel), declared);
+                let ty = trunc_ty(*sel);
+                let ty = if ty == reg::FRAME_WT_STREAM { reg::FRAME_DATA } else { ty };
+                let mut v = refcodec::enc_frame_header(ty, declared);
                 v.extend(std::iter::repeat(0xEE).take(present as usize));
+                v
+            }
+            Sym::Unknown(sel, p) => refcodec::enc_frame(unknown_ty(*sel), p),
+            Sym::TruncatedHeader(sel, cut) => {
+                let ty = trunc_ty(*sel);
+                // the WT signal is followed by a session id, the others by a 2-byte length
+                let mut v = refcodec::enc_varint(ty);
+                if ty == reg::FRAME_WT_STREAM {
+                    v.extend(refcodec::enc_varint(16384 * 4));
+                } else {
+                    v.extend(refcodec::enc_varint(300));
+                }
+                let keep = 1 + (*cut as usize) % (v.len() - 1);
+                v.truncate(keep);
                 v
             }
         }
     }
     fn ends_stream(&self) -> bool {
-        matches!(self, Sym::Truncated(..) | Sym::Oversize(..))
+        matches!(self, Sym::Truncated(..) | Sym::Oversize(..) | Sym::TruncatedHeader(..))
     }
 }
 
@@ -127,7 +171,9 @@ pub fn canonical(i: usize) -> Sym {
         4 => Sym::WtInvalid(8),
         5 => Sym::Grease(1, vec![9]),
         6 => Sym::Oversize(0, 0),
-        _ => Sym::Truncated(1, 5, 2),
+        7 => Sym::Truncated(1, 5, 2),
+        8 => Sym::Unknown(0, vec![7, 7]),
+        _ => Sym::Truncated(5, 4, 0),
     }
 }
 
@@ -141,7 +187,9 @@ fn sym_strategy() -> impl Strategy<Value = Sym> {
         crate::gen::varint_value().prop_map(|v| Sym::WtInvalid(v.min(refcodec::VARINT_MAX - 8))),
         (any::<u64>(), p()).prop_map(|(n, p)| Sym::Grease(n, p)),
         (any::<u8>(), 0u64..100_000).prop_map(|(s, e)| Sym::Oversize(s, e)),
-        (any::<u8>(), 1u8..40, any::<u8>()).prop_map(|(s, d, p)| Sym::Truncated(s, d, p)),
+        (any::<u8>(), 1u8..40, prop_oneof![Just(0u8), any::<u8>()]).prop_map(|(s, d, p)| Sym::Truncated(s, d, p)),
+        (any::<u8>(), p()).prop_map(|(s, p)| Sym::Unknown(s, p)),
+        (any::<u8>(), any::<u8>()).prop_map(|(s, c)| Sym::TruncatedHeader(s, c)),
     ]
 }
 
@@ -172,13 +220,18 @@ pub fn test_seq(ts: Ts, syms: &[Sym]) -> R {
     let mut first = true;
     let mut off = 0;
     let mut nontrivial = false;
+    // whether the input ends at a frame boundary (after whole skipped unknown frames, if any)
+    let mut clean_end = true;
+    let mut skipped_at_end = 0usize;
     loop {
         let st = model::ref_step(ts, &mut first, &bytes[off..]);
         match &st {
             Step::Frame(_, n) => off += n,
             Step::Error(_) => nontrivial = true,
             Step::NeedMore => {
-                if off < bytes.len() {
+                clean_end = only_whole_unknown_frames(&bytes[off..]);
+                skipped_at_end = if clean_end { bytes.len() - off } else { 0 };
+                if !clean_end {
                     nontrivial = true; // truncated frame: async path must report H3_FRAME_ERROR
                 }
             }
@@ -219,7 +272,7 @@ pub fn test_seq(ts: Ts, syms: &[Sym]) -> R {
             let got = t.read_frame_from_buffer(&mut r);
             match (st, &got) {
                 (Step::Frame(v, n), Ok(Some(f))) if frame_view(f) == *v && r.offset() - before == *n => {}
-                (Step::NeedMore, Ok(None)) if r.offset() == before => {}
+                (Step::NeedMore, Ok(None)) if r.offset() == before || r.offset() == before + skipped_at_end => {}
                 (Step::Error(codes), Err(e)) if codes.contains(&code(*e)) && r.offset() == before => {}
                 _ => return Err(fail("read_frame_from_buffer", i, format!("{} (offset {} -> {})", fmt_sync(&got), before, r.offset()))),
             }
@@ -239,9 +292,9 @@ pub fn test_seq(ts: Ts, syms: &[Sym]) -> R {
                     consumed += n;
                     frame_view(f) == *v && src.pos == consumed
                 }
-                (Step::NeedMore, Err(IoReadError::IO(bytes::IoReadError::ImmediateFin))) => consumed == bytes.len(),
+                (Step::NeedMore, Err(IoReadError::IO(bytes::IoReadError::ImmediateFin))) => clean_end,
                 // a frame cut short by the end of the stream: H3_FRAME_ERROR
-                (Step::NeedMore, Err(IoReadError::H3(e))) => consumed < bytes.len() && code(*e) == reg::H3_FRAME_ERROR,
+                (Step::NeedMore, Err(IoReadError::H3(e))) => !clean_end && code(*e) == reg::H3_FRAME_ERROR,
                 (Step::Error(codes), Err(IoReadError::H3(e))) => codes.contains(&code(*e)),
                 _ => false,
             };
@@ -251,6 +304,18 @@ pub fn test_seq(ts: Ts, syms: &[Sym]) -> R {
         }
     }
     Ok(nontrivial)
+}
+
+/// True when `rest` consists only of complete frames of unknown type (possibly none).
+fn only_whole_unknown_frames(rest: &[u8]) -> bool {
+    let mut off = 0;
+    while off < rest.len() {
+        match model::ref_read_frame(&rest[off..]) {
+            model::RefFrame::Unknown { whole: Some(n), len: Some(l), .. } if l <= model::PAYLOAD_CAP => off += n,
+            _ => return false,
+        }
+    }
+    true
 }
 
 fn fmt_sync(g: &Result<Option<Frame<'_>>, ErrorCode>) -> String {
@@ -278,16 +343,16 @@ pub fn run(run: &Run) {
     let depth = run.tier.pick(4u32, 5u32);
     let mut total = 0u64;
     for d in 1..=depth {
-        total += 8u64.pow(d);
+        total += 10u64.pow(d);
     }
     vcore::par_ranges(workers, total, |_w, range| {
         for mut i in range {
             let mut d = 1u32;
-            while i >= 8u64.pow(d) {
-                i -= 8u64.pow(d);
+            while i >= 10u64.pow(d) {
+                i -= 10u64.pow(d);
                 d += 1;
             }
-            let syms: Vec<Sym> = (0..d).map(|k| canonical(((i / 8u64.pow(k)) % 8) as usize)).collect();
+            let syms: Vec<Sym> = (0..d).map(|k| canonical(((i / 10u64.pow(k)) % 10) as usize)).collect();
             for (ti, ts) in model::ALL_TS.iter().enumerate() {
                 let r = vcore::catch(|| test_seq(*ts, &syms)).unwrap_or_else(|p| Err((format!("C12:panic:{ts:?}"), p)));
                 match r {
@@ -305,7 +370,7 @@ pub fn run(run: &Run) {
             }
         }
     });
-    run.section_exhaustive("typestate-exhaustive", true, &format!("all sequences of length 1..={depth} over the 8-symbol alphabet x 4 typestates x 3 paths"));
+    run.section_exhaustive("typestate-exhaustive", true, &format!("all sequences of length 1..={depth} over the 10-symbol alphabet x 4 typestates x 3 paths"));
     prop_search(
         run,
         Search { check: "typestate", cases: run.tier.pick(600_000, 6_000_000), workers, max_shrink_iters: 4000 },
